@@ -22,6 +22,7 @@ type ConcProfile struct {
 	PerturbMax  int  // highest perturbation level
 	HoldPct     int  // percent of scenarios with a directed hold
 	SyncPct     int  // percent of scenarios whose bars carry sync decorators at all
+	WriteBoost  int  // extra percentage of operations that are Progress.Write calls
 }
 
 var holdTemplates = []engine.Hold{
@@ -42,6 +43,12 @@ func genBlock(t *rapid.T, prof *ConcProfile, sc *engine.Scenario, n int, canTick
 	for k := 0; k < n; k++ {
 		bar := rapid.IntRange(0, nb-1).Draw(t, "bar")
 		spec := &sc.Bars[bar]
+		if pct(t, prof.WriteBoost, "writeboost") {
+			body := rapid.StringMatching(`[a-z ]{0,40}`).Draw(t, "wbody2")
+			blk = append(blk, engine.Step{Op: "write", Text: fmt.Sprintf("w%d.%d:%s\n", wid, *wcount, body)})
+			*wcount++
+			continue
+		}
 		switch rapid.IntRange(0, 19).Draw(t, "bop") {
 		case 0, 1, 2, 3, 4:
 			hi := int64(25)
